@@ -13,6 +13,7 @@ exists"; `depthOk` is the same without the existence requirement.  Inclusion cyc
 the property (Python recurses until it fails).
 -/
 import PybtexModel.Lemmas.AuxFile
+import PybtexModel.Lemmas.AuxFileReports
 
 namespace Pybtex.Props
 open Pybtex Pybtex.Aux Pybtex.Aux.Spec
@@ -202,6 +203,53 @@ theorem C20_case_mismatch_reported_nonvacuous :
     mismatches ["a".toList] ["A".toList, "a".toList, "a".toList] =
       [("A".toList, "a".toList), ("a".toList, "A".toList)] := by decide
 
+/-- **"A key cited in two different spellings is reported"** — the wording of the property, which is NOT
+literally what the code checks (audit-d, C20 finding 3): `handle_citation` compares a key with the MOST
+RECENT spelling of the same key (`C20_case_mismatch_reported`), so the citations `a, A, a` give TWO
+reports and `a, A, A` give one (`C20_two_spellings_reported_nonvacuous`).  The two readings agree on
+WHETHER a key is reported, for every closed document:
+(1) if a key occurs among the citations of the document in two different spellings (equal up to
+    `str.lower()`, different as strings — on one line, on different lines, in different files), at least
+    one case-mismatch report is made for that key;
+(2) every case-mismatch report names two different spellings of one key, both of which are cited in the
+    document.
+How MANY reports there are and where is `C20_reports_spec` / `C20_case_mismatch_reported`. -/
+theorem C20_two_spellings_reported (fs : FS) (d fuel : Nat) (p : Path)
+    (hcl : closedDepth fs d p = true) (hle : d ≤ fuel) :
+    (∀ k k', k ∈ citations (events fs d p) → k' ∈ citations (events fs d p) →
+        lowerPy k = lowerPy k' → k ≠ k' →
+        ∃ r ∈ captured (parse fs fuel p), ∃ a b, r.kind = .caseMismatch a b ∧ lowerPy a = lowerPy k) ∧
+    (∀ r ∈ captured (parse fs fuel p), ∀ a b, r.kind = .caseMismatch a b →
+        a ∈ citations (events fs d p) ∧ b ∈ citations (events fs d p) ∧ lowerPy b = lowerPy a ∧ a ≠ b) := by
+  rw [captured_parse fs d fuel p hcl hle]
+  have hiff := fun a b => caseMismatch_reportsAfter a b (events fs d p) []
+  have hnil : citations ([] : List Event) = [] := rfl
+  constructor
+  · intro k k' hk hk' hf hne
+    rcases mismatches_of_clash (lowerPy k) (citations (events fs d p)) []
+        ⟨k, k', by simpa using hk, by simpa using hk', rfl, hf.symm, hne⟩ with ⟨ab, hab, hfab⟩ | ⟨x, _, hx, _⟩
+    · obtain ⟨r, hr, hkind⟩ := (hiff ab.1 ab.2).2 (by rw [hnil]; exact hab)
+      exact ⟨r, hr, ab.1, ab.2, hkind, hfab⟩
+    · cases hx
+  · intro r hr a b hkind
+    have hm := (hiff a b).1 ⟨r, hr, hkind⟩
+    rw [hnil] at hm
+    obtain ⟨h1, h2, h3, h4⟩ := mem_mismatches _ [] (a, b) hm
+    exact ⟨h1, by simpa using h2, h3, h4⟩
+
+/-- the hypotheses of (1) hold in `demoFS` (`a` on line 2 of `t.aux`, `A` on line 5, after the nested
+files); and the count is that of the "most recent spelling" reading: `a, A, a` two reports, `a, A, A` one,
+`a, A, a, A` three -/
+theorem C20_two_spellings_reported_nonvacuous :
+    closedDepth demoFS 4 "t.aux".toList = true ∧
+    "a".toList ∈ citations (events demoFS 4 "t.aux".toList) ∧
+    "A".toList ∈ citations (events demoFS 4 "t.aux".toList) ∧
+    lowerPy "a".toList = lowerPy "A".toList ∧
+    mismatches [] ["a".toList, "A".toList, "a".toList] = [("A".toList, "a".toList), ("a".toList, "A".toList)] ∧
+    mismatches [] ["a".toList, "A".toList, "A".toList] = [("A".toList, "a".toList)] ∧
+    (mismatches [] ["a".toList, "A".toList, "a".toList, "A".toList]).length = 3 := by
+  refine ⟨by decide, by decide, by decide, by decide, by decide, by decide, by decide⟩
+
 /-- Reports made after returning from nested files carry the outer file and the right line: for a
 top-level file `l1 ++ l :: l3`, whatever problem line `l` causes — given all the events read before
 it, which include the complete contents of every file the lines `l1` include — is reported with
@@ -239,6 +287,39 @@ theorem C20_context_after_input_nonvacuous :
          "\\@input{u.aux}".toList, "\\citation{A}".toList, "\\bibstyle{alpha}".toList] 1)
         ⟨"t.aux".toList, 7, strip "\\bibdata{x,y}".toList, Spec.classify "\\bibdata{x,y}".toList⟩ := by
   decide
+
+/-- **Every report is located at a real line of a real file, at any depth** (audit-d, C20 finding 2: the
+second half of `C20_context_after_input` unfolds the event supplied in its own hypothesis).  For a closed
+document, EVERY report the parse makes — in the top file or in a nested one, before or after an
+`\@input` — names a file `r.file` of the file system and a line number `n ≥ 1` such that line `n` of that
+file exists, `r.line` is that line without surrounding white space, and that line IS the command that
+causes this kind of problem: a `\citation` line listing the reported key, a `\bibstyle` line, a
+`\bibdata` line.  No reference to events, to the parser's context stack or to the position of the
+line relative to nested files. -/
+theorem C20_reports_located (fs : FS) (d fuel : Nat) (p : Path)
+    (hcl : closedDepth fs d p = true) (hle : d ≤ fuel) (r : Report) (hr : r ∈ captured (parse fs fuel p)) :
+    ∃ lines n l, fs r.file = some lines ∧ r.lineno = some n ∧ 1 ≤ n ∧ lines[n - 1]? = some l ∧
+      r.line = some (strip l) ∧
+      (match r.kind with
+       | .caseMismatch a _ => ∃ keys, Spec.classify l = .citation keys ∧ a ∈ keys
+       | .anotherBibstyle => ∃ s, Spec.classify l = .bibstyle s
+       | .anotherBibdata => ∃ ns, Spec.classify l = .bibdata ns
+       | _ => False) := by
+  rw [captured_parse fs d fuel p hcl hle] at hr
+  obtain ⟨e, he, hf, hn, hl, hk⟩ := reportsAfter_mem r (events fs d p) [] hr
+  obtain ⟨lines, l, hfs, h1, hline, ht, hi⟩ := events_mem fs d p e he
+  refine ⟨lines, e.lineno, l, by rw [hf]; exact hfs, hn, h1, hline, by rw [hl, ht], ?_⟩
+  rw [← hi]
+  exact hk
+
+/-- the four reports of `demoFS`: one inside the nested file `u.aux` (line 1), three in `t.aux` AFTER the
+nested files (lines 5, 6, 7); the hypotheses of `C20_reports_located` hold -/
+theorem C20_reports_located_nonvacuous :
+    closedDepth demoFS 4 "t.aux".toList = true ∧
+    (captured (parse demoFS 4 "t.aux".toList)).map (fun r => (r.file, r.lineno, r.line)) =
+      [("u.aux".toList, some 1, some "\\citation{b}".toList), ("t.aux".toList, some 5, some "\\citation{A}".toList),
+       ("t.aux".toList, some 6, some "\\bibstyle{alpha}".toList), ("t.aux".toList, some 7, some "\\bibdata{x,y}".toList)] := by
+  refine ⟨by decide, by decide⟩
 
 /-! ### fatal errors -/
 
